@@ -49,6 +49,13 @@ LayerOf(neurons, k) ==
   LET ins == neurons[k].ins
       srcLayers == {IF ins[j][2] = "s" THEN 0 ELSE LayerOf(neurons, ins[j][3]) : j \in 1..Len(ins)}
   IN 1 + (CHOOSE m \in srcLayers : \A o \in srcLayers : m >= o)
+\* number of parameters of the architecture: per hidden neuron a bias and one weight per input, per output a
+\* multiplier, a bias and one weight per neuron of the last hidden layer (or per state variable if there is none)
+RECURSIVE AnnHidden(_, _, _)
+AnnHidden(nin, layers, i) == IF i > Len(layers) THEN 0
+                             ELSE layers[i] * (1 + (IF i = 1 THEN nin ELSE layers[i - 1])) + AnnHidden(nin, layers, i + 1)
+AnnParamCount(nin, layers, nout) ==
+  AnnHidden(nin, layers, 1) + nout * (2 + (IF Len(layers) = 0 THEN nin ELSE layers[Len(layers)]))
 AnnClauses(nin, layers, nout, pdims, neurons, outs) ==
   LET N == Len(neurons)
       L == [k \in 1..N |-> LayerOf(neurons, k)]
